@@ -67,6 +67,10 @@ func TestMain(m *testing.M) {
 		os.Exit(3)
 	}
 	out.Flush()
+	if os.Getenv("VERIF_COVER") != "" {
+		// coverage build: let the testing package write the profile (run with -test.run=^$ -test.coverprofile=...)
+		os.Exit(m.Run())
+	}
 	os.Exit(0)
 }
 
